@@ -6,6 +6,7 @@ package main
 
 import (
 	"fmt"
+	"regexp"
 	"strings"
 
 	"golang.org/x/tools/go/ssa"
@@ -272,4 +273,51 @@ func init() {
 		}
 		return in.callBody(fr, fn, a)
 	}
+}
+
+// ---- regexp: compiled natively from the (concrete) pattern; matching a symbolic string yields an arbitrary verdict
+func init() {
+	intrinsics["regexp.MustCompile"] = func(in *Interp, fr *frame, fn *ssa.Function, a []Value) Value {
+		pat, ok := in.goString(a[0])
+		if !ok {
+			in.unsupported("regexp.MustCompile on symbolic pattern")
+		}
+		re, err := regexp.Compile(pat)
+		if err != nil {
+			panic(targetPanic{in.makeError("regexp: " + err.Error())})
+		}
+		cell := new(Value)
+		*cell = &Opaque{Kind: "regexp", Data: re}
+		return cell
+	}
+	match := func(in *Interp, fr *frame, fn *ssa.Function, a []Value) Value {
+		p, _ := a[0].(*Value)
+		if p == nil {
+			in.unsupported("regexp: nil receiver")
+		}
+		o, ok := (*p).(*Opaque)
+		if !ok || o.Kind != "regexp" {
+			in.unsupported("regexp value not built by the engine")
+		}
+		re := o.Data.(*regexp.Regexp)
+		var s string
+		var conc bool
+		switch v := a[1].(type) {
+		case SliceV:
+			ss := &SymStr{B: make([]*Term, len(v))}
+			for i, b := range v {
+				ss.B[i] = b.(*Term)
+			}
+			s, conc = in.goString(normStr(ss))
+		default:
+			s, conc = in.goString(a[1])
+		}
+		if conc {
+			return in.tt.Bool(re.MatchString(s))
+		}
+		// Go's RE2 is linear and cannot panic; on symbolic input the verdict is arbitrary
+		return in.nondetVar("regexp match", BoolSort)
+	}
+	intrinsics["(*regexp.Regexp).MatchString"] = match
+	intrinsics["(*regexp.Regexp).Match"] = match
 }
